@@ -190,7 +190,7 @@ theorem c11_put_get_partial {env : MEnv} {h : Heap} {target : Val} {sroot : Bool
   | unsupported => rw [href] at hr; exact hr.elim
   | ok h' hid n =>
     rw [href] at hr
-    obtain ⟨_, hheap, _, hhid⟩ := hr
+    obtain ⟨_, hheap, _, hhid, _⟩ := hr
     rw [hheap]
     rw [hhid] at hnh
     subst hnh
@@ -238,23 +238,28 @@ theorem c11_put_get_partial {env : MEnv} {h : Heap} {target : Val} {sroot : Bool
     · rw [hm] at hm'; cases hm'
 
 /-- **`missing`**: when the walk stops at segment `k` and a factory is given, a successful
-    assign made exactly one factory call per absent segment — `orig.length - 1 - k` of them — and
-    (by `c11_frame`) replaced no existing intermediate value: the only pre-existing cell written
-    is the object the walk stopped at, where the new chain is attached. -/
+    assign made exactly one factory call per absent segment — `orig.length - 1 - k` of them —;
+    the new chain is **attached last**: in the model's log of heap events every event but the
+    last concerns a cell created during this call (factory allocations and writes into fresh
+    objects), the last one is the single write to a pre-existing cell (`AttachLast`); and (by
+    `c11_frame`) no existing intermediate value is replaced: that pre-existing cell is the object
+    the walk stopped at. -/
 theorem c11_missing {env : MEnv} {h : Heap} {target : Val} {sroot : Bool} {orig : List Step}
     {vs : ValSpec} {kind : String} (hy : Hyps env h target sroot orig vs (.factory kind))
     (sref : Val) (r : Val)
     (hok : (assign env sroot sref (.factory kind) h target orig vs).2 = .ok r)
     (k : Nat) (e : PyExc) (stop : Val)
     (hstop : matchesOf env h orig.dropLast 0 (if sroot then sref else target) = .fail k e stop) :
-    (assign env sroot sref (.factory kind) h target orig vs).1.calls = orig.length - 1 - k := by
+    (assign env sroot sref (.factory kind) h target orig vs).1.calls = orig.length - 1 - k ∧
+    AttachLast h (assign env sroot sref (.factory kind) h target orig vs).1.log := by
   have hr := c11_refines hy sref
   cases href : refAssign env h target (if sroot then sref else target) orig vs (.factory kind) with
   | fail a => rw [href] at hr; obtain ⟨⟨e', he⟩, _⟩ := hr; rw [he] at hok; cases hok
   | unsupported => rw [href] at hr; exact hr.elim
   | ok h' hid n =>
     rw [href] at hr
-    obtain ⟨_, _, hcalls, _⟩ := hr
+    obtain ⟨_, _, hcalls, _, hlog⟩ := hr
+    refine ⟨?_, hlog⟩
     rw [hcalls]
     obtain ⟨op, arg, v, hl, _, hcase⟩ := refAssign_ok_cases href
     rcases hcase with ⟨ds, hm, _, _⟩ | ⟨k', e', stop', kind', op', arg', h1, c, hid', w, hk, hm, hok', hbt, _, _⟩
@@ -324,7 +329,7 @@ theorem c11_model_checks {env : MEnv} {h : Heap} {target : Val} {sroot : Bool} {
   | unsupported => rw [href] at hr; exact hr.elim
   | ok h' hid n =>
     rw [href] at hr
-    obtain ⟨h1, h2, h3, h4⟩ := hr
+    obtain ⟨h1, h2, h3, h4, _⟩ := hr
     simp [observe, h1, h2, h3, h4]
   | fail a =>
     rw [href] at hr
@@ -361,6 +366,11 @@ example :
     out.2 = .ok (.ref 0) ∧ out.1.calls = 2 ∧
     out.1.heap[4]? = some (.dict "dict" [(.str "m", .ref 5)]) ∧
     out.1.heap[5]? = some (.dict "dict" [(.str "z", .ref 2)]) := by decide
+/-- … and the heap events in order: two factory allocations, the value into the inner fresh dict,
+    the inner dict into the outer one, and only then the single write to the pre-existing target -/
+example : (assign exEnv false .none (.factory "dict") exHeap (.ref 0) exMissingPath
+      (.path [("[", .str "a"), ("[", .int 1)])).1.log =
+    [.alloc 4, .alloc 5, .write 5, .write 4, .write 0] := by decide
 /-- atomic failure: assigning below the tuple raises and leaves the heap as it was -/
 example : (assign exEnv false .none .none exHeap (.ref 0) [("P", .str "t"), ("P", .str "0")]
       (.lit (.int 5))).2 = .error .unregistered := by decide
